@@ -112,6 +112,32 @@ func (w *World) abs(p string) string {
 	return filepath.Clean(p)
 }
 
+// dotDotOK: the kernel resolves a path component by component, so every ".." must follow
+// a prefix that exists as a directory ("stage/../x" needs "stage"); the lexical abs()
+// alone would accept it.
+func (w *World) dotDotOK(base, p string) bool {
+	if !strings.Contains(p, "..") {
+		return true
+	}
+	cur := base
+	if filepath.IsAbs(p) {
+		cur = "/"
+	}
+	for _, comp := range strings.Split(p, "/") {
+		switch comp {
+		case "", ".":
+		case "..":
+			if n := w.node(cur); n == nil || n.Kind != KDir {
+				return false
+			}
+			cur = filepath.Dir(cur)
+		default:
+			cur = filepath.Join(cur, comp)
+		}
+	}
+	return true
+}
+
 func (w *World) absFrom(dir, p string) string {
 	if !filepath.IsAbs(p) {
 		p = filepath.Join(dir, p)
@@ -286,7 +312,7 @@ func (m *Machine) fsStat(pv Value) (Value, Value) {
 		return Iface{}, m.errVal("ENOENT", "stat : no such file or directory")
 	}
 	n := w.node(w.abs(p))
-	if n == nil {
+	if n == nil || !w.dotDotOK(w.Cwd, p) {
 		return Iface{}, m.errVal("ENOENT", "stat "+p+": no such file or directory")
 	}
 	return Iface{T: m.extType("fileinfo"), V: &Ext{Kind: "fileinfo", F: map[string]Value{"isdir": n.Kind == KDir, "name": filepath.Base(p), "node": n}}}, Iface{}
@@ -307,6 +333,32 @@ func (m *Machine) fsMkdirAll(pv Value) Value {
 	w.event(m, "mkdirall", p)
 	if p == "" {
 		return m.errVal("ENOENT", "mkdir : no such file or directory")
+	}
+	if strings.Contains(p, "..") {
+		// os.MkdirAll works on the path as written: "stage/../x" creates stage and x
+		cur := w.Cwd
+		if filepath.IsAbs(p) {
+			cur = "/"
+		}
+		for _, comp := range strings.Split(p, "/") {
+			switch comp {
+			case "", ".":
+			case "..":
+				cur = filepath.Dir(cur)
+			default:
+				cur = filepath.Join(cur, comp)
+				if n := w.node(cur); n == nil {
+					if !w.parentExists(cur) {
+						return m.errVal("ENOENT", "mkdir "+p+": no such file or directory")
+					}
+					w.nextIno++
+					w.Nodes[cur] = &Node{Kind: KDir, Ino: w.nextIno}
+				} else if n.Kind != KDir {
+					return m.errVal("ENOTDIR", "mkdir "+p+": not a directory")
+				}
+			}
+		}
+		return Iface{}
 	}
 	a := w.abs(p)
 	// create all missing ancestors
@@ -345,7 +397,7 @@ func (m *Machine) fsRename(fv, tv Value) Value {
 	w.event(m, "rename", from, to)
 	af, at := w.abs(from), w.abs(to)
 	n := w.node(af)
-	if n == nil {
+	if n == nil || !w.dotDotOK(w.Cwd, from) || !w.dotDotOK(w.Cwd, to) {
 		return m.errVal("ENOENT", "rename "+from+" "+to+": no such file or directory")
 	}
 	if !w.parentExists(at) {
@@ -452,7 +504,7 @@ func (m *Machine) fsWriteFile(pv Value, data Value, origin string) Value {
 	m.crashPoint("write " + p)
 	w.event(m, "write", p)
 	a := w.abs(p)
-	if !w.parentExists(a) {
+	if !w.parentExists(a) || !w.dotDotOK(w.Cwd, p) {
 		return m.errVal("ENOENT", "open "+p+": no such file or directory")
 	}
 	if n := w.node(a); n != nil && n.Kind == KDir {
@@ -491,7 +543,7 @@ func (m *Machine) fsReadFile(pv Value) (Value, Value) {
 	}
 	w.event(m, "read", p)
 	n := w.node(w.abs(p))
-	if n == nil {
+	if n == nil || !w.dotDotOK(w.Cwd, p) {
 		return Slice(nil), m.errVal("ENOENT", "open "+p+": no such file or directory")
 	}
 	if n.Kind != KFile {
@@ -709,7 +761,7 @@ func (m *Machine) runVcmd(dir, text string, args []string) Value {
 			p := a[2:]
 			ab := w.absFrom(dir, p)
 			n := w.node(ab)
-			if n == nil || n.Kind == KDir {
+			if n == nil || n.Kind == KDir || !w.dotDotOK(dir, p) {
 				return fail("read of missing file " + p)
 			}
 			inv.Reads = append(inv.Reads, ab)
@@ -749,7 +801,7 @@ func (m *Machine) runVcmd(dir, text string, args []string) Value {
 				continue
 			}
 			m.crashPoint("cmd-write " + p)
-			if !w.parentExists(ab) {
+			if !w.parentExists(ab) || !w.dotDotOK(dir, p) {
 				return fail("cannot create " + p + ": no such directory")
 			}
 			if n := w.node(ab); n != nil && n.Kind == KDir {
